@@ -210,6 +210,7 @@ class real_eval_macro(Macro):
     def eval(self, goal, prevs):
         assert len(prevs) == 0, "real_eval_macro: no conditions expected"
         assert goal.is_equals(), "real_eval_macro: goal must be an equality"
+        assert goal.lhs.get_type() == RealType, "real_eval_macro: goal must be on real numbers"
         assert real_eval(goal.lhs) == real_eval(goal.rhs), "real_eval_macro: two sides are not equal"
 
         return Thm(goal)
